@@ -56,8 +56,9 @@ Lemma regenerated_ode_ic_reduce_ok (F : fld) w (ut0 : list (list F)) (u0 : list 
 Proof. exact (ode_ic_expected_sem F w ut0 u0). Qed.
 Lemma regenerated_norm_reduce_ok (F : fld) w L :
   (forall m, tsem F [T2 m; T0 L; T0 w] g_norm_reduce_statio = Some (T0 (norm_term_statio F w L m))) /\
-  (forall ms, tsem F [T3 ms; T0 L; T0 w] g_norm_reduce_nonstatio = Some (T0 (norm_term_nonstatio F w L ms))).
-Proof. split; [exact (norm_statio_expected_sem F w L)|exact (norm_nonstatio_expected_sem F w L)]. Qed.
+  (forall ms, tsem F [T3 ms; T0 L; T0 w] g_norm_reduce_nonstatio = Some (T0 (norm_term_nonstatio F w L ms))) /\
+  g_norm_statio_sliced = true.
+Proof. split; [exact (norm_statio_expected_sem F w L)|split; [exact (norm_nonstatio_expected_sem F w L)|reflexivity]]. Qed.
 Lemma regenerated_obs_reduce_ok (F : fld) w (pred vals : list (list F)) :
   tsem F [T2 pred; T2 vals; wten F w] g_obs_reduce = Some (T0 (obs_term F w pred vals)) /\ g_obs_slices = true.
 Proof. split; [exact (diff_expected_sem F w pred vals)|reflexivity]. Qed.
